@@ -3607,7 +3607,7 @@ func (lbc *LoadBalancerController) haltIfVSConfigInvalid(vsNew *conf_v1.VirtualS
 		}
 	}
 
-	lbc.configuration.virtualServers[key] = vsNew
+	// vsNew was stored above if it is valid; a rejected VirtualServer must stay out of the configuration
 	return len(problems) > 0
 }
 
